@@ -50,6 +50,8 @@ def display(item):
         return f'#include "{item[1]}"'
     if k == 'nop':
         return 'nop'
+    if k in ('mute', 'unmute'):
+        return '#' + k
     raise ValueError(item)
 
 
@@ -122,6 +124,8 @@ class Resolver:
                 self._scan(it[1])
             elif k == 'nop':
                 stmts.append(('instr', 'nop', None))
+            elif k in ('mute', 'unmute'):
+                stmts.append((k,))          # muting changes what is emitted, never what a name refers to
 
     def _resolve(self):
         for fname, idx, name, region in self.refs:
@@ -222,6 +226,12 @@ def catalogue():
     C['rej:file-label-from-included'] = {'main.asm': [F('t'), NOP, ('include', 'inc.asm')], 'inc.asm': [R('_t')]}
     C['rej:file-constant-from-other-file'] = {'main.asm': [FC('k', 'v1'), ('include', 'inc.asm')], 'inc.asm': [R('_k')]}
     C['rej:local-from-included-file'] = {'main.asm': [G('a'), Lc('x'), ('include', 'inc.asm')], 'inc.asm': [R('.x')]}
+    # references on muted lines are resolved (and rejected) like any other
+    MU, UN = ('mute',), ('unmute',)
+    C['muted-region-resolves-like-any-other'] = {'main.asm': [F('t'), NOP, G('a'), Lc('x'), MU, R('.x'), R('a'), R('_t'), UN, R('.x'), R('_t')]}
+    C['rej:undefined-reference-in-muted-region'] = {'main.asm': [G('a'), MU, R('nowhere'), UN, NOP]}
+    C['rej:local-of-other-region-in-muted-region'] = {'main.asm': [G('a'), Lc('x'), NOP, G('b'), MU, R('.x'), UN, NOP]}
+    C['rej:file-label-of-other-file-in-muted-region'] = {'main.asm': [F('t'), NOP, ('include', 'inc.asm')], 'inc.asm': [MU, R('_t'), UN]}
     C['rej:duplicate-global'] = {'main.asm': [G('a'), NOP, G('a')]}
     C['rej:duplicate-global-across-files'] = {'main.asm': [G('a'), ('include', 'inc.asm')], 'inc.asm': [NOP, G('a')]}
     C['rej:duplicate-file-label'] = {'main.asm': [F('t'), NOP, F('t')]}
